@@ -57,3 +57,59 @@ def strategyKey (r : Req) : Bytes :=
   firstField s
 
 end Helios.Addr
+
+namespace Helios.Addr
+open Helios Helios.Bytes
+
+/-- length of a Unicode White_Space code point encoded at the head of `s` (0 = none), as
+`unicode.IsSpace` / `strings.TrimSpace` see it: ASCII \t \n \v \f \r space, U+0085, U+00A0,
+U+1680, U+2000–U+200A, U+2028, U+2029, U+202F, U+205F, U+3000 -/
+def spaceLenHead : Bytes → Nat
+  | 0x09 :: _ | 0x0A :: _ | 0x0B :: _ | 0x0C :: _ | 0x0D :: _ | 0x20 :: _ => 1
+  | 0xC2 :: 0x85 :: _ | 0xC2 :: 0xA0 :: _ => 2
+  | 0xE1 :: 0x9A :: 0x80 :: _ => 3
+  | 0xE2 :: 0x80 :: b :: _ => if (0x80 ≤ b ∧ b ≤ 0x8A) ∨ b = 0xA8 ∨ b = 0xA9 ∨ b = 0xAF then 3 else 0
+  | 0xE2 :: 0x81 :: 0x9F :: _ => 3
+  | 0xE3 :: 0x80 :: 0x80 :: _ => 3
+  | _ => 0
+
+def trimLeft : Nat → Bytes → Bytes
+  | 0, s => s
+  | fuel+1, s => match spaceLenHead s with
+    | 0 => s
+    | n => trimLeft fuel (s.drop n)
+
+/-- the same test on the reversed string (bytes of the last code point, reversed) -/
+def spaceLenTailRev : Bytes → Nat
+  | 0x09 :: _ | 0x0A :: _ | 0x0B :: _ | 0x0C :: _ | 0x0D :: _ | 0x20 :: _ => 1
+  | 0x85 :: 0xC2 :: _ | 0xA0 :: 0xC2 :: _ => 2
+  | 0x80 :: 0x9A :: 0xE1 :: _ => 3
+  | 0x9F :: 0x81 :: 0xE2 :: _ => 3
+  | 0x80 :: 0x80 :: 0xE3 :: _ => 3
+  | b :: 0x80 :: 0xE2 :: _ => if (0x80 ≤ b ∧ b ≤ 0x8A) ∨ b = 0xA8 ∨ b = 0xA9 ∨ b = 0xAF then 3 else 0
+  | _ => 0
+
+def trimRightRev : Nat → Bytes → Bytes
+  | 0, s => s
+  | fuel+1, s => match spaceLenTailRev s with
+    | 0 => s
+    | n => trimRightRev fuel (s.drop n)
+
+/-- `strings.TrimSpace` on a byte string -/
+def trimSpace (s : Bytes) : Bytes :=
+  let l := trimLeft s.length s
+  (trimRightRev l.length l.reverse).reverse
+
+/-- `utils.GetClientIP`: X-Forwarded-For (text before the first comma if that comma is not
+at position 0, trimmed), else X-Real-IP as is, else host of RemoteAddr, else RemoteAddr -/
+def clientIP (r : Req) : Bytes :=
+  if r.xff ≠ [] then
+    match indexOf comma r.xff with
+    | some (i+1) => trimSpace (r.xff.take (i+1))
+    | _ => trimSpace r.xff
+  else if r.xri ≠ [] then r.xri
+  else match splitHost r.remote with
+    | some h => h
+    | none => r.remote
+
+end Helios.Addr
